@@ -331,6 +331,7 @@ class Interp(object):
         self.nonneg = set()
         self.col_base = {}
         self.entry_writes = []
+        self.label_alias = {}
         from . import lib
         self.lib = lib
 
@@ -459,19 +460,42 @@ class Interp(object):
             if a[0] == 'fn' and a[1] in ELEMENTWISE_FNS:
                 return None
             if self.atom_is_array(a):
-                return N.fn(idx[0], N.NF.atom(a), *[N.NF.const(i) for i in idx[1:]])
+                return N.fn(idx[0], N.NF.atom(a), *[i if isinstance(i, N.NF) else N.NF.const(i) for i in idx[1:]])
             if a[0] in ('sym', 'fn'):
                 return N.NF.atom(a)
             return None
         return N.transform(x, leaf)
 
+    def canon_label(self, a):
+        seen = 0
+        while a in self.label_alias and seen < 16:
+            a = self.label_alias[a]
+            seen += 1
+        return a
+
     def labels_equal(self, a, b):
         """three valued: True / False / None"""
+        a, b = self.canon_label(a), self.canon_label(b)
         if a == b:
             return True
         if frozenset((a, b)) in self.distinct:
             return False
         return None
+
+    def decide_labels_equal(self, a, b, node=None):
+        """case split on the identity of two type labels (explored by the driver, never guessed)"""
+        e = self.labels_equal(a, b)
+        if e is not None:
+            return e
+        a, b = self.canon_label(a), self.canon_label(b)
+        x, y = sorted((a, b))
+        r = self.decide(P.Cond.flag('%s==%s' % (x, y)), node)
+        if r:
+            # alias the later-created label to the earlier one
+            self.label_alias[y] = x
+        else:
+            self.distinct.add(frozenset((a, b)))
+        return r
 
     def pair_same(self, p, q):
         (a, b), (c, d) = p, q
@@ -874,6 +898,19 @@ class Interp(object):
             return cur
         if isinstance(cur, Masked):
             raise Unsupported('in-place op on a masked copy', node)
+        if isinstance(cur, Num) and self.loopctx and op in ('Add', 'Sub') and self.is_numeric(rhs):
+            # scalar accumulation inside a loop over type labels: a sum over the loop's labels
+            labels = [l for l in self.loopctx[-1].get('labels', ()) if self.canon_label(l) == l]
+            if labels:
+                t, _ = self.term_of(rhs, node)
+                if P.is_pw(t):
+                    raise Unsupported('piecewise accumulation over types', node)
+                mapping = {l: '@t%d' % i for i, l in enumerate(labels)}
+                body = relabel(t, mapping, self.symmetric)
+                acc = N.fn('SumT', ','.join(sorted(mapping.values())), body)
+                self.notes.append(('sumT', {'labels': labels, 'summand': t, 'loc': self.loc(node),
+                                            'distinct': sorted(tuple(sorted(p)) for p in self.distinct)}))
+                return Num(cur.t + acc if op == 'Add' else cur.t - acc, 'scalar')
         return self.binop(op, cur, rhs, node)
 
     # ---- loops ---------------------------------------------------------------------------------
@@ -1568,10 +1605,16 @@ class Interp(object):
             if lo is None and hi is None:
                 return ('all',)
             lo_i = 0 if lo is None else (int(num_value(lo)) if is_const_num(lo) else None)
-            hi_i = None if hi is None else (int(num_value(hi)) if is_const_num(hi) else 'sym')
-            if lo_i is None or hi_i == 'sym':
-                raise Unsupported('symbolic slice bound', node)
-            return ('slice', lo_i, hi_i if hi_i is not None else -1)
+            if lo_i is None:
+                raise Unsupported('symbolic lower slice bound', node)
+            if hi is None:
+                return ('slice', lo_i, -1)
+            if is_const_num(hi):
+                return ('slice', lo_i, int(num_value(hi)))
+            th, _ = self.term_of(hi, node)
+            if P.is_pw(th):
+                raise Unsupported('piecewise slice bound', node)
+            return ('slice', lo_i, th)
         if idx[0] == 'tuple':
             parts = [self.classify_array_index(i, node) for i in idx[1]]
             if len(parts) == 3 and parts[0] == ('all',) and parts[1][0] == 'atlabel' and parts[2][0] == 'atlabel':
@@ -1704,7 +1747,7 @@ def relabel(x, mapping, symmetric=()):
     return N.transform(x, leaf)
 
 
-def explore(make_and_run, limit=64):
+def explore(make_and_run, limit=64, keep_raised=False):
     """enumerate object-level branches on data conditions by re-running with an oracle.
     make_and_run(preset) -> (interp, result) ; returns list of (decisions, interp, result|exc)"""
     out = []
@@ -1719,4 +1762,7 @@ def explore(make_and_run, limit=64):
         except NeedDecision:
             work.append(preset + [False])
             work.append(preset + [True])
+        except Raised as e:
+            if keep_raised:
+                out.append((list(preset), None, e))
     return out
